@@ -39,6 +39,8 @@ pub struct GenConfig {
     pub features: bool,
     /// splines (needs `features`)
     pub splines: bool,
+    /// LF frames feeding VarDCT frames (needs `vardct`)
+    pub lf_frames: bool,
 }
 
 impl GenConfig {
@@ -69,6 +71,7 @@ impl GenConfig {
             colour: true,
             features: true,
             splines: true,
+            lf_frames: true,
         }
     }
 
@@ -378,6 +381,26 @@ pub fn random_program(rng: &mut Rng, cfg: &GenConfig) -> Program {
                 if fh > 256 && fh % 256 == 1 {
                     f.noise = None;
                 }
+            }
+        }
+        if cfg.lf_frames && f.vardct.is_some() && prog.extra.is_empty() && f.crop.is_none() && f.upsampling == 1 {
+            // own generator again; the LF frame is a Modular XYB frame of 1/8 size placed right before
+            let mut lrng = Rng::new(f.modular.data_seed ^ 0x1FF2_0000_0001);
+            if lrng.chance(1, 4) {
+                let mut lf = random_frame(&mut lrng, &GenConfig { crops: false, upsampling: false, passes: false, noise: false, filters: false, transforms: false, ..cfg.clone() }, &prog, false);
+                lf.kind = FrameKind::LfFrame;
+                lf.crop = None;
+                lf.upsampling = 1;
+                lf.is_last = false;
+                lf.duration = 0;
+                lf.save_as_reference = 0;
+                lf.noise = None;
+                lf.gab = GabSpec::Off;
+                lf.epf = None;
+                lf.vardct = None;
+                lf.modular.transforms.clear();
+                prog.frames.push(lf);
+                f.vardct.as_mut().unwrap().use_lf_frame = true;
             }
         }
         if cfg.features {
